@@ -16,7 +16,7 @@ import typing_extensions
 import pv_vocab
 
 NS: dict = {}
-exec("from typing import *\nfrom typing_extensions import *\nfrom typing import Callable\nimport os, math, collections.abc\n", NS)
+exec("from typing import *\nfrom typing_extensions import *\nfrom typing import Callable\nimport os, math, collections.abc, typing, typing_extensions\n", NS)
 NS.update({k: getattr(pv_vocab, k) for k in pv_vocab.__all__})
 NS.update({"A_INST": pv_vocab.A(), "B_INST": pv_vocab.B(), "C_INST": pv_vocab.C()})
 NS.update({k: getattr(pv_vocab, k) for k in pv_vocab.__all__})
